@@ -40,11 +40,13 @@ type burst struct {
 	Probes  []probe `json:"probes"`
 }
 
+// sources 0, 2 and 3 arrive through the same router (one hardware address), source 1 is
+// a station of its own: groups must be kept apart by address, not only by hardware address
 var sources = []cl.Peer{
 	{IP: cl.IP4{10, 20, 0, 1}, MAC: cl.MAC{0x02, 0xd0, 0, 0, 0, 1}},
 	{IP: cl.IP4{10, 20, 0, 2}, MAC: cl.MAC{0x02, 0xd0, 0, 0, 0, 2}},
-	{IP: cl.IP4{198, 51, 100, 9}, MAC: cl.MAC{0x02, 0xd0, 0, 0, 0, 3}},
-	{IP: cl.IP4{10, 20, 0, 1 + 3}, MAC: cl.MAC{0x02, 0xd0, 0, 0, 0, 4}},
+	{IP: cl.IP4{198, 51, 100, 9}, MAC: cl.MAC{0x02, 0xd0, 0, 0, 0, 1}},
+	{IP: cl.IP4{10, 20, 0, 4}, MAC: cl.MAC{0x02, 0xd0, 0, 0, 0, 1}},
 }
 
 var (
@@ -647,8 +649,8 @@ func checkSet(c setCase) (err error) {
 		}
 	}()
 	us := canary.NewUniqueSet(func(a, b interface{}) bool { return a.(*item).key == b.(*item).key })
-	var model []int              // keys in insertion order
-	canon := map[int]*item{}     // the stored item per key
+	var model []int          // keys in insertion order
+	canon := map[int]*item{} // the stored item per key
 	pos := func(k int) int {
 		for i, m := range model {
 			if m == k {
